@@ -38,6 +38,11 @@ s_re_fs    == <<102, 46, 42>>             \* "f.*"    (f, fg)
 s_re_ze    == <<122, 36>>                 \* "z$"     (xyz, yz, x z)
 s_re_xdz   == <<94, 120, 46, 42, 122>>    \* "^x.*z"  (xyz, x z)
 s_re_y     == <<121>>                     \* "y"
+\* characters that are ordinary in POSIX basic syntax (the library compiles with cflags 0) and operators in extended syntax
+s_xpz      == <<120, 43, 122>>            \* format "x+z"
+s_xxz      == <<120, 120, 122>>           \* format "xxz"
+s_re_xpz   == <<120, 43, 122>>            \* "x+z"   (basic: the three characters x + z; not "xxz")
+s_re_xbar  == <<94, 120, 124, 121>>       \* "^x|y"  (basic: a text starting with x|y -- none here; extended would take xyz, x z, yz, ...)
 
 FILE == 0  FUNC == 1  FORMAT == 2  FILE_RE == 3  FUNC_RE == 4  FORMAT_RE == 5
 
@@ -76,13 +81,15 @@ U2TRules == { <<FILE, s_ac, 0, 7>>, <<FUNC, s_g_fg, 0, 6>>, <<FORMAT, s_yz, 0, 7
 U3Sites == { <<s_ac, s_f, 1, 4, s_xyz>>, <<s_ac, s_f, 2, 4, s_xyz>>,
              <<s_abc, s_fg, 1, 4, s_xz>>, <<s_abc, s_fg, 7, 4, s_xz>>,
              <<s_bc, s_g, 1, 6, s_yz>>, <<s_bc, s_g, 2, 6, s_yz>>,
-             <<s_bc, s_fg, 3, 2, s_x>> }
+             <<s_bc, s_fg, 3, 2, s_x>>,
+             <<s_bc, s_f, 4, 4, s_xpz>>, <<s_abc, s_g, 5, 4, s_xxz>> }
 U3Rules == { <<FILE_RE, s_re_a, 0, 7>>, <<FILE_RE, s_re_b, 0, 7>>, <<FILE_RE, s_re_ddc, 0, 5>>, <<FILE_RE, s_re_abs, 0, 7>>,
              <<FUNC_RE, s_re_fe, 0, 7>>, <<FUNC_RE, s_re_g, 0, 7>>, <<FUNC_RE, s_re_fs, 3, 7>>,
              <<FORMAT_RE, s_re_ze, 0, 7>>, <<FORMAT_RE, s_re_xdz, 0, 7>>, <<FORMAT_RE, s_re_y, 0, 5>>,
              <<FILE_RE, s_star, 0, 3>>,
+             <<FORMAT_RE, s_re_xpz, 0, 7>>, <<FORMAT_RE, s_re_xbar, 0, 7>>,
              <<FILE, s_ac_bc, 0, 7>>, <<FUNC, s_fg, 0, 7>>, <<FORMAT, s_x, 0, 7>> }
-U3TRules == { <<FILE_RE, s_re_b, 0, 7>>, <<FUNC_RE, s_re_fs, 0, 7>>, <<FORMAT_RE, s_re_ze, 0, 5>>, <<FUNC, s_g, 0, 7>> }
+U3TRules == { <<FORMAT_RE, s_re_xpz, 0, 7>>, <<FILE_RE, s_re_b, 0, 7>>, <<FUNC_RE, s_re_fs, 0, 7>>, <<FORMAT_RE, s_re_ze, 0, 5>>, <<FUNC, s_g, 0, 7>> }
 
 (* U4: everything mixed, priorities 0..8 *)
 U4Sites == { <<s_ac, s_f, 1, 0, s_xyz>>, <<s_ac, s_f, 2, 0, s_xyz>>,
